@@ -670,7 +670,10 @@ fn oracle(c: &Case, imp: &str) -> Result<bool, String> {
 
 // ---------------------------------------------------------------- generators
 
-const CHAR_POOL: [char; 14] = ['a', 'Z', '0', ' ', 'é', 'ß', 'λ', '€', '語', '\u{0301}', '\u{FFFD}', '😀', '𝄞', '\u{10FFFF}'];
+const CHAR_POOL: [char; 18] = ['a', 'Z', '0', ' ', 'é', 'ß', 'λ', '€', '語', '\u{0301}', '\u{FFFD}', '😀', '𝄞', '\u{10FFFF}', '\r', '\n', '\t', '\0'];
+
+/// receivers built around line endings and other control characters, on every seed
+const DIRECTED_STRINGS: [&str; 12] = ["a\r\nb", "\r\n", "\n\r", "x\r\n\r\ny", "é\r\n😀", "€\n\r𝄞\r\n", "\r\r\n\n", "\0\t\r\n", "\n", "\r", "語\r\n\u{0301}\r\nß", "\r\n\r\n\r\n"];
 
 fn grid_string(len: usize, variant: usize) -> String {
     // mixes 1, 2, 3 and 4 byte characters; distinct characters so that positions are visible
@@ -683,7 +686,17 @@ fn grid_string(len: usize, variant: usize) -> String {
 }
 
 fn random_string(rng: &mut Rng, len: usize) -> String {
-    (0..len).map(|_| *rng.pick(&CHAR_POOL)).collect()
+    // exactly `len` characters; CR LF pairs are put in on purpose now and then
+    let mut cs: Vec<char> = Vec::with_capacity(len);
+    while cs.len() < len {
+        if cs.len() + 2 <= len && rng.chance(1, 10) {
+            cs.push('\r');
+            cs.push('\n');
+        } else {
+            cs.push(*rng.pick(&CHAR_POOL));
+        }
+    }
+    cs.into_iter().collect()
 }
 
 fn random_elem(rng: &mut Rng) -> Value {
@@ -965,6 +978,10 @@ fn gen_text_ops(rng: &mut Rng, n_random: usize, max_len: usize, out: &mut Vec<Ca
             strings.push(Value::normal_string(&s));
             strings.push(Value::safe_string(&s));
         }
+    }
+    for d in DIRECTED_STRINGS {
+        strings.push(Value::normal_string(d));
+        strings.push(Value::safe_string(d));
     }
     for _ in 0..n_random {
         let len = rng.below(max_len + 1);
